@@ -640,6 +640,7 @@ Proof.
   - apply put_c_ok; [exact Hw|]. pose proof (get_c_ok w o Hw) as Hc. unfold cctx_end. destruct (c_stage (get_c w o)); exact Hc.
   - apply put_c_ok; [exact Hw|]. exact (get_c_ok w o Hw).
   - apply put_c_ok; [exact Hw|]. exact (get_c_ok w o Hw).
+  - apply put_c_ok; [exact Hw|]. exact (get_c_ok w o Hw).
   - apply put_c_ok; [exact Hw|]. pose proof (get_c_ok w o Hw) as Hc. revert E. unfold cctx_load. case_ifs; intro E; injection E as <- _; exact Hc.
   - apply put_c_ok; [exact Hw|]. pose proof (get_c_ok w o Hw) as Hc. revert E. unfold cctx_refcdict. case_ifs; intro E; injection E as <- _; exact Hc.
   - apply put_c_ok; [exact Hw|]. pose proof (get_c_ok w o Hw) as Hc. revert E. unfold cctx_refprefix. case_ifs; intro E; injection E as <- _; exact Hc.
@@ -707,6 +708,7 @@ Proof.
   - unfold cctx_end. destruct (c_stage (get_c w o0)); reflexivity.
   - reflexivity.
   - reflexivity.
+  - reflexivity.
   - revert E. unfold cctx_load. case_ifs; intro E; injection E as <- _; reflexivity.
   - revert E. unfold cctx_refcdict. case_ifs; intro E; injection E as <- _; reflexivity.
   - revert E. unfold cctx_refprefix. case_ifs; intro E; injection E as <- _; reflexivity.
@@ -739,8 +741,19 @@ Qed.
 
 (* the simple API produces the same header whatever the advanced parameters are, and leaves them alone *)
 Lemma simple_api_ignores_parameters_l : forall w o,
-  step w (OCSimple o) = (w, (Ok, [0; 1; 0; 0])).
-Proof. reflexivity. Qed.
+  let w' := fst (step w (OCSimple o)) in
+  snd (step w (OCSimple o)) = (Ok, [0; 1; 0; 0])
+  /\ c_params (get_c w' o) = c_params (get_c w o) /\ c_dict (get_c w' o) = c_dict (get_c w o)
+  /\ c_static (get_c w' o) = c_static (get_c w o)
+  /\ c_stage (get_c w' o) = S_init                      (* since fix 38ec6ea an open streaming session is closed *)
+  /\ get_c w' (negb o) = get_c w (negb o) /\ w_p w' = w_p w /\ w_d0 w' = w_d0 w /\ w_d1 w' = w_d1 w
+  /\ (c_stage (get_c w o) = S_init -> w' = w).
+Proof.
+  intros w o. cbn [step fst snd]. rewrite get_put_c_same. unfold cctx_simple.
+  repeat split; try reflexivity; try (destruct o; reflexivity).
+  intro Hs. destruct w as [c0 c1 p d0 d1]. destruct o; simpl in *;
+    [destruct c1 | destruct c0]; simpl in *; subst; reflexivity.
+Qed.
 
 (* ------------------------------------------------------------------ ZSTD_DCtx *)
 Lemma in_dbounds_intro : forall p lo hi v, dbounds p = Some (lo, hi) -> lo <= v <= hi -> in_dbounds p v.
@@ -850,11 +863,11 @@ Qed.
 (* D-T5 / D-T6 *)
 Lemma d_reset_parameters_restores_defaults_l : forall d dir,
   is_params dir = true -> (d_stage d = S_init \/ is_session dir = true) ->
-  dctx_reset d dir = (mkD 0 (2 ^ z_ZSTD_WINDOWLOG_LIMIT_DEFAULT + 1) 0 0 0 0 0 S_init (dd_clear (d_dict d)) (d_static d), Ok)
+  dctx_reset d dir = (mkD 0 (2 ^ z_ZSTD_WINDOWLOG_LIMIT_DEFAULT + 1) 0 0 0 0 0 S_init (dd_drop (d_dict d)) (d_static d), Ok)
   /\ dctx_get_p (fst (dctx_reset d dir)) D_windowLogMax = z_ZSTD_WINDOWLOG_LIMIT_DEFAULT.
 Proof.
   intros d dir Hp Hs.
-  assert (E : dctx_reset d dir = (mkD 0 (2 ^ z_ZSTD_WINDOWLOG_LIMIT_DEFAULT + 1) 0 0 0 0 0 S_init (dd_clear (d_dict d)) (d_static d), Ok)).
+  assert (E : dctx_reset d dir = (mkD 0 (2 ^ z_ZSTD_WINDOWLOG_LIMIT_DEFAULT + 1) 0 0 0 0 0 S_init (dd_drop (d_dict d)) (d_static d), Ok)).
   { unfold dctx_reset. fold (is_session dir) (is_params dir). rewrite Hp.
     destruct (is_session dir); cbn [dctx_set_stage d_stage stage_is_init]; [reflexivity|].
     destruct Hs as [Hs|Hs]; [|discriminate Hs]. rewrite Hs. cbn [stage_is_init].
@@ -1014,6 +1027,9 @@ Proof.
   destruct (dd_oneshot_frame _ _ _ _ _) as [[x1 u] ok]. cbn [fst]. apply dsame_dict_stage.
 Qed.
 
+Lemma dsame_dec_raw : forall v d k f, dsame d (fst (dctx_dec_raw_gen v d k f)).
+Proof. intros. unfold dctx_dec_raw_gen. destruct (negb _); cbn [fst]; apply dsame_dict_stage. Qed.
+
 Lemma dctx_refddict_ok : forall d k, dctx_ok d -> dctx_ok (fst (dctx_refddict d k)).
 Proof. intros d k Hd. eapply dctx_ok_same; [apply dsame_refddict | exact Hd]. Qed.
 
@@ -1053,6 +1069,8 @@ Proof.
     eapply dctx_ok_same; [apply dsame_dec_oneshot | apply get_d_ok, Hw].
   - replace d with (fst (dctx_dec_using (get_d w o) k f)) by (rewrite E; reflexivity).
     eapply dctx_ok_same; [apply dsame_dec_using | apply get_d_ok, Hw].
+  - replace d with (fst (dctx_dec_raw (get_d w o) k f)) by (rewrite E; reflexivity).
+    eapply dctx_ok_same; [apply dsame_dec_raw | apply get_d_ok, Hw].
 Qed.
 
 Lemma history_dparams_within_bounds_l : forall ops o p,
@@ -1112,6 +1130,7 @@ Proof.
   - replace d with (fst (dctx_dec_stream (get_d w o0) f)) by (rewrite E; reflexivity). apply dsame_dparams, dsame_dec_stream.
   - replace d with (fst (dctx_dec_oneshot (get_d w o0) fs)) by (rewrite E; reflexivity). apply dsame_dparams, dsame_dec_oneshot.
   - replace d with (fst (dctx_dec_using (get_d w o0) k f)) by (rewrite E; reflexivity). apply dsame_dparams, dsame_dec_using.
+  - replace d with (fst (dctx_dec_raw (get_d w o0) k f)) by (rewrite E; reflexivity). apply dsame_dparams, dsame_dec_raw.
 Qed.
 
 Lemma d_sticky_across_frames_l : forall ops w o,
